@@ -439,4 +439,318 @@ theorem ipv6FromParts_trail (a0 : Str) (A' : List Str) (va : List Nat)
 /-- the text `::` -/
 theorem ipv6FromParts_only : ipv6FromParts [[], [], []] = some 0 := by decide
 
+
+/-! ### IPv6Address on a spelling -/
+
+theorem wordsVal_expand (lv rv : List Nat) (k : Nat) :
+    wordsVal (lv ++ (List.replicate k 0 ++ rv)) = wordsVal lv * 2 ^ (16 * (k + rv.length)) + wordsVal rv := by
+  rw [wordsVal_append, wordsVal_append, wordsVal_zeros]
+  simp
+
+theorem colon_not_in_end (e : End6) (he : e.Valid) : ':' ∉ e.text := by
+  intro h
+  cases e with
+  | nothing => cases h
+  | group g => exact colon_not_in_hextet g he h
+  | quad v =>
+    simp only [End6.text, dotted_shape, List.mem_append, List.mem_cons] at h
+    rcases h with h | h | h | h | h | h | h
+    · exact colon_not_in_render10 _ h
+    · revert h; decide
+    · exact colon_not_in_render10 _ h
+    · revert h; decide
+    · exact colon_not_in_render10 _ h
+    · revert h; decide
+    · exact colon_not_in_render10 _ h
+
+/-- the parts before the last one -/
+def Spell6.parts0 : Spell6 → List Str
+  | .full gs _ => gs.map hextetText
+  | .compressed l r _ => (if l.isEmpty then [[]] else []) ++ (l.map hextetText ++ [] :: r.map hextetText)
+
+theorem splitOn_text (sp : Spell6) (h : sp.Valid) :
+    splitOn ':' sp.text = sp.parts0 ++ [sp.end6.text] := by
+  cases sp with
+  | full gs e =>
+    simp only [Spell6.text, Spell6.parts0, Spell6.end6]
+    rw [splitOn_sepG gs h.1, splitOn_no_sep _ _ (colon_not_in_end e h.2.1)]
+  | compressed l r e =>
+    obtain ⟨hl, hr, he, _, _⟩ := h
+    have hR : splitOn ':' (sepG r ++ e.text) = r.map hextetText ++ [e.text] := by
+      rw [splitOn_sepG r hr, splitOn_no_sep _ _ (colon_not_in_end e he)]
+    have h0 : ∀ rest, splitOn ':' (':' :: rest) = [] :: splitOn ':' rest := by
+      intro rest
+      have := splitOn_app ':' [] rest (by simp)
+      simpa using this
+    cases l with
+    | nil =>
+      simp only [Spell6.text, Spell6.parts0, Spell6.end6, List.isEmpty_nil, ↓reduceIte, sepG, List.nil_append,
+        List.cons_append, List.map_nil]
+      rw [h0, h0, hR]
+    | cons g l' =>
+      simp only [Spell6.text, Spell6.parts0, Spell6.end6, List.isEmpty_cons, Bool.false_eq_true, ↓reduceIte,
+        List.nil_append]
+      rw [splitOn_sepG _ hl, h0, hR]
+      simp
+
+theorem parts0_len (sp : Spell6) (h : sp.Valid) : 2 ≤ sp.parts0.length := by
+  cases sp with
+  | full gs e =>
+    obtain ⟨_, _, _, hlen⟩ := h
+    have hwl : e.words.length ≤ 2 := by cases e <;> simp [End6.words]
+    simp only [Spell6.parts0, List.length_map]; omega
+  | compressed l r e =>
+    cases l with
+    | nil => simp [Spell6.parts0]
+    | cons g l' => simp [Spell6.parts0]; omega
+
+theorem wordsVal_right0 (lv : List Nat) (k : Nat) :
+    wordsVal (lv ++ List.replicate k 0) = wordsVal lv * 2 ^ (16 * k) := by
+  rw [wordsVal_append, wordsVal_zeros]; simp
+
+theorem wordsVal_left0 (rv : List Nat) (k : Nat) : wordsVal (List.replicate k 0 ++ rv) = wordsVal rv := by
+  rw [wordsVal_append, wordsVal_zeros]; simp
+
+theorem group_no_dot (g : Hextet) (hg : g.Valid) : (hextetText g).contains '.' = false := by
+  apply contains_false_of_not_mem
+  intro h
+  have := hextetText_chars g hg '.' h
+  rw [hexVal_dot] at this; cases this
+
+/-- `_ip_int_from_string` up to the conversion of a dotted-quad tail -/
+theorem ipv6FromString_parts (sp : Spell6) (h : sp.Valid) :
+    ipv6FromString sp.text = ipv6FromParts (sp.parts0 ++ endParts sp.end6) := by
+  have hsplit := splitOn_text sp h
+  have hev := end6_valid sp h
+  have hlen := parts0_len sp h
+  have hlt : ∀ x : Str, ¬ (sp.parts0 ++ [x]).length < 3 := by intro x; simp; omega
+  have hlast : ∀ x : Str, (sp.parts0 ++ [x]).getLast?.getD [] = x := by intro x; simp
+  unfold ipv6FromString
+  simp only [text_isEmpty sp h, Bool.false_eq_true, ↓reduceIte, hsplit]
+  cases hend : sp.end6 with
+  | nothing =>
+    have hc : ([] : Str).contains '.' = false := rfl
+    simp only [End6.text, hlt, ↓reduceIte, hlast, hc, Bool.false_eq_true, endParts]
+  | group g =>
+    rw [hend] at hev
+    simp only [End6.text, hlt, ↓reduceIte, hlast, group_no_dot g hev, Bool.false_eq_true, endParts]
+  | quad v =>
+    rw [hend] at hev
+    have hc : (dotted v).contains '.' = true := contains_true_of_mem _ _ (dot_mem_dotted v)
+    simp only [End6.text, hlt, ↓reduceIte, hlast, hc, ipv4Address_dotted v hev, List.dropLast_concat, endParts]
+
+/-- **`IPv6Address` reads every spelling as the address it denotes.** -/
+theorem ipv6FromString_spell (sp : Spell6) (h : sp.Valid) : ipv6FromString sp.text = some sp.denotes := by
+  rw [ipv6FromString_parts sp h]
+  cases sp with
+  | full gs e =>
+    obtain ⟨hgs, he, hn, hlen⟩ := h
+    simp only [Spell6.parts0, Spell6.end6, Spell6.denotes]
+    have hp := parsed_append _ _ _ _ (parsed_groups gs hgs) (parsed_end e he hn)
+    exact ipv6FromParts_full _ _ hp (by rw [parsed_len _ _ hp]; simp; exact hlen)
+  | compressed l r e =>
+    obtain ⟨hl, hr, he, hlen, hnr⟩ := h
+    simp only [Spell6.parts0, Spell6.end6, Spell6.denotes]
+    cases hn : e.isNothing with
+    | true =>
+      have hr0 := hnr hn
+      subst hr0
+      have he0 : e = .nothing := by cases e <;> simp_all [End6.isNothing]
+      subst he0
+      cases l with
+      | nil =>
+        simp only [List.isEmpty_nil, ↓reduceIte, List.map_nil, endParts, End6.words]
+        have : ([[]] ++ ([] ++ [[]]) ++ [[]] : List Str) = [[], [], []] := rfl
+        rw [this, ipv6FromParts_only]
+        simp [wordsVal]
+      | cons g l' =>
+        simp only [List.isEmpty_cons, Bool.false_eq_true, ↓reduceIte, List.nil_append, List.map_nil, endParts,
+          End6.words, List.append_nil]
+        have hA := parsed_groups (g :: l') hl
+        have e1 : (g :: l').map hextetText ++ [[]] ++ [[]] = (hextetText g :: l'.map hextetText) ++ [[], []] := by simp
+        rw [e1]
+        have := ipv6FromParts_trail (hextetText g) (l'.map hextetText) _ hA (by simp at hlen ⊢; omega)
+        rw [this, wordsVal_right0]
+        simp
+    | false =>
+      have hB := parsed_append _ _ _ _ (parsed_groups r hr) (parsed_end e he hn)
+      have hBlen := parsed_len _ _ hB
+      cases hb : r.map hextetText ++ endParts e with
+      | nil =>
+        cases e <;> simp [endParts] at hb
+      | cons b0 B' =>
+        rw [hb] at hB hBlen
+        cases l with
+        | nil =>
+          simp only [List.isEmpty_nil, ↓reduceIte, List.map_nil, List.nil_append, List.cons_append,
+            List.append_assoc, hb]
+          have := ipv6FromParts_lead b0 B' _ hB (by rw [hBlen]; simp at hlen ⊢; omega)
+          rw [this, wordsVal_left0]
+        | cons g l' =>
+          simp only [List.isEmpty_cons, Bool.false_eq_true, ↓reduceIte, List.nil_append, List.append_assoc,
+            List.cons_append, hb]
+          have hA := parsed_groups (g :: l') hl
+          have := ipv6FromParts_mid (hextetText g) (l'.map hextetText) _ b0 B' _ hA hB
+            (by rw [hBlen]; simp at hlen ⊢; omega)
+          simp only [List.map_cons, List.cons_append] at this ⊢
+          have hx := wordsVal_expand (hextetVal g :: l'.map hextetVal) (r.map hextetVal ++ e.words)
+            (8 - ((g :: l').length + r.length + e.words.length))
+          simp only [List.cons_append] at hx
+          have hexp : 8 - (hextetText g :: l'.map hextetText).length =
+              8 - ((g :: l').length + r.length + e.words.length) + (r.map hextetVal ++ e.words).length := by
+            simp at hlen ⊢; omega
+          rw [this, hx, hexp]
+
+
+/-! ### `ip_address` -/
+
+theorem takeWhile_id (p : Char → Bool) (s : Str) (h : ∀ c ∈ s, p c = true) : s.takeWhile p = s := by
+  have := span_app p s [] h (Or.inl rfl)
+  rw [List.append_nil] at this
+  exact this.1
+
+theorem dropWhile_nil_of_all (p : Char → Bool) (s : Str) (h : ∀ c ∈ s, p c = true) : s.dropWhile p = [] := by
+  have := span_app p s [] h (Or.inl rfl)
+  rw [List.append_nil] at this
+  exact this.2
+
+/-- `IPv6Address(s)` for a text without `/` and `%` is `_ip_int_from_string(s)` -/
+theorem ipv6Address_plain (s : Str) (hs : '/' ∉ s) (hp : '%' ∉ s) :
+    ipv6Address s = (ipv6FromString s).map fun a => (a, none) := by
+  unfold ipv6Address
+  have h1 : s.contains '/' = false := contains_false_of_not_mem _ _ hs
+  have hall : ∀ c ∈ s, (fun c => decide (c ≠ '%')) c = true := all_ne_of_not_mem '%' s hp
+  simp only [h1, Bool.false_eq_true, ↓reduceIte, takeWhile_id _ s hall, dropWhile_nil_of_all _ s hall]
+
+theorem ipAddress_spell6 (sp : Spell6) (h : sp.Valid) : ipAddress sp.text = some (.v6 sp.denotes none) := by
+  unfold ipAddress
+  have hs : '/' ∉ sp.text := fun hm => v6c_ne '/' (text_chars sp h '/' hm) '/' (by decide) rfl
+  have hp : '%' ∉ sp.text := fun hm => v6c_ne '%' (text_chars sp h '%' hm) '%' (by decide) rfl
+  rw [ipv4Address_none_of_colon _ (colon_mem_text sp h), ipv6Address_plain _ hs hp, ipv6FromString_spell sp h]
+  rfl
+
+theorem ipAddress_dotted (v : Nat) (hv : v < 2 ^ 32) : ipAddress (dotted v) = some (.v4 v) := by
+  unfold ipAddress
+  rw [ipv4Address_dotted v hv]
+
+/-- fewer than two colons: never an `IPv6Address` -/
+theorem ipv6FromString_two_parts (x p : Str) (hx : ':' ∉ x) (hp : ':' ∉ p) :
+    ipv6FromString (x ++ ':' :: p) = none := by
+  unfold ipv6FromString
+  split
+  · rfl
+  · rw [splitOn_app _ _ _ hx, splitOn_no_sep _ _ hp]
+    simp
+
+theorem ipv6FromString_one_part (x : Str) (hx : ':' ∉ x) : ipv6FromString x = none := by
+  unfold ipv6FromString
+  split
+  · rfl
+  · rw [splitOn_no_sep _ _ hx]
+    simp
+
+/-! texts that start with `[` -/
+
+theorem innerEmptyFrom_ge : ∀ (l : List Str) (i : Nat), ∀ x ∈ innerEmptyFrom i l, i ≤ x
+  | [], _ => by intro x hx; cases hx
+  | [_], _ => by intro x hx; cases hx
+  | p :: q :: rest, i => by
+    intro x hx
+    simp only [innerEmptyFrom, List.mem_append] at hx
+    rcases hx with hx | hx
+    · split at hx
+      · simp only [List.mem_singleton] at hx; omega
+      · cases hx
+    · have := innerEmptyFrom_ge (q :: rest) (i + 1) x hx
+      omega
+
+theorem parseHextet_bracket (t : Str) : parseHextet ('[' :: t) = none := by
+  unfold parseHextet
+  have : ('[' :: t).all (fun c => (hexVal? c).isSome) = false := by
+    have : (hexVal? '[').isSome = false := by decide
+    simp [this]
+  simp [this]
+
+theorem hextetsVal_bracket (t : Str) (rest : List Str) : hextetsVal (('[' :: t) :: rest) = none := by
+  simp [hextetsVal, parseHextet_bracket]
+
+theorem ipv6FromParts_bracket (t : Str) (rest : List Str) : ipv6FromParts (('[' :: t) :: rest) = none := by
+  unfold ipv6FromParts
+  split
+  · rfl
+  · simp only [List.tail_cons]
+    split
+    · rfl
+    · next skip heq =>
+      have hge : 1 ≤ skip := innerEmptyFrom_ge rest 1 skip (by rw [heq]; simp)
+      simp only [List.head?_cons, Option.getD_some, List.isEmpty_cons, Bool.false_eq_true, ↓reduceIte]
+      split
+      · rfl
+      · next lo hlo =>
+        split
+        · rfl
+        · have : (('[' :: t) :: rest).take skip = ('[' :: t) :: rest.take (skip - 1) := by
+            cases skip with
+            | zero => omega
+            | succ n => simp
+          rw [this, hextetsVal_bracket]
+    · simp only [List.head?_cons, Option.getD_some, List.isEmpty_cons, Bool.false_eq_true, ↓reduceIte]
+      split
+      · rfl
+      · split
+        · rfl
+        · exact hextetsVal_bracket t rest
+
+theorem splitOn_head_bracket (t : Str) : ∃ t' rest, splitOn ':' ('[' :: t) = ('[' :: t') :: rest := by
+  rw [splitOn]
+  cases hs : splitOn ':' t with
+  | nil => exact absurd hs (splitOn_ne_nil ':' t)
+  | cons x xs =>
+    have : ('[' : Char) ≠ ':' := by decide
+    exact ⟨x, xs, by simp [this]⟩
+
+/-- a text that starts with `[` is never an `IPv6Address` -/
+theorem ipv6FromString_bracket (t : Str) : ipv6FromString ('[' :: t) = none := by
+  unfold ipv6FromString
+  obtain ⟨t', rest, hs⟩ := splitOn_head_bracket t
+  simp only [List.isEmpty_cons, Bool.false_eq_true, ↓reduceIte, hs]
+  split
+  · rfl
+  · next hlen =>
+    split
+    · rfl
+    · next parts hp =>
+      split at hp
+      · split at hp
+        · cases hp
+        · next v _ =>
+          injection hp with hp
+          subst hp
+          cases rest with
+          | nil => simp at hlen
+          | cons r0 rr =>
+            have : (('[' :: t') :: r0 :: rr).dropLast = ('[' :: t') :: (r0 :: rr).dropLast := by
+              simp [List.dropLast]
+            rw [this]
+            exact ipv6FromParts_bracket t' _
+      · injection hp with hp
+        subst hp
+        exact ipv6FromParts_bracket t' rest
+
+theorem ipAddress_bracket (t : Str) (hc : ':' ∈ t) (hs : '/' ∉ t) (hp : '%' ∉ t) :
+    ipAddress ('[' :: t) = none := by
+  unfold ipAddress
+  have hs' : '/' ∉ '[' :: t := by
+    intro h; simp only [List.mem_cons] at h
+    rcases h with h | h
+    · revert h; decide
+    · exact hs h
+  have hp' : '%' ∉ '[' :: t := by
+    intro h; simp only [List.mem_cons] at h
+    rcases h with h | h
+    · revert h; decide
+    · exact hp h
+  rw [ipv4Address_none_of_colon _ (by simp [hc]), ipv6Address_plain _ hs' hp', ipv6FromString_bracket]
+  rfl
+
 end Sshuttle.ArgsSpec
